@@ -29,7 +29,7 @@ CA = ("sym", "{a1 as Char.0}")
 CB = ("sym", "{a2 as Char.0}")
 
 
-@rule("CLASS-OPS", ["C09"], floor=12)
+@rule("CLASS-OPS", ["C09", "C01", "C20"], floor=12)
 def class_ops(ctx):
     """union / difference / complement / build of CharacterClassBuilder evaluate to a∪b, a−b, ¬a, a for every
     combination of the Char / inversion-list representations."""
@@ -140,7 +140,7 @@ def _assigned_values(ctx, b, local):
     return vals
 
 
-@rule("CLASS-COMPOSE", ["C09"], floor=9)
+@rule("CLASS-COMPOSE", ["C09", "C01", "C20"], floor=9)
 def class_compose(ctx):
     """Tail of parse_character_class: result = builder; ∪ addend if present; complemented iff the group is negative;
     minus the subtrahend if present - in this order, for all 8 combinations."""
@@ -231,7 +231,7 @@ def class_compose(ctx):
     return out
 
 
-@rule("CLASS-ADDEND", ["C09", "C07"], floor=3)
+@rule("CLASS-ADDEND", ["C09", "C07", "C01", "C20"], floor=3)
 def class_addend(ctx):
     """Inside [...], a multi-character escape is united into the addend (never dropped, never subtracted);
     the nested class after '-[' becomes the subtrahend."""
@@ -517,7 +517,7 @@ def leaf_dot(ctx):
     return out
 
 
-@rule("CLASS-ITEM-FLOW", ["C09", "C07"], floor=4)
+@rule("CLASS-ITEM-FLOW", ["C09", "C07", "C01", "C20"], floor=4)
 def class_item_flow(ctx):
     """One turn of the item loop of parse_character_class never loses a character: a single character parsed in the
     turn is added (add_char), becomes the end of the range being defined (add_range with it as end point), or is
